@@ -329,7 +329,12 @@ L_OUT0_AGAIN = Retort(recipe=[bound(int, INNER0)]).get_loader(int)    # the orig
           "        and ok == exp_ok and (not ok or r == exp) and not strict_ok)",
           pre=["0 <= n <= 2", "0 <= c0 < 9", "0 <= c1 < 9"], timeout=60, family="facade",
           bounds="retort used in a recipe, then extend()/replace() clones used in recipes: each serves from its OWN recipe and options; x any int, s str len<=2")
-    return Plan("C09", [m, mb, me, mf],
+    from props.C13 import build as build_c13
+    hist = []
+    for m13 in build_c13(tier, seed).modules:
+        m13.obs = [o for o in m13.obs if o.name == "history"]          # the per-call recipe of the conversion facade is prepended, whatever was cached
+        hist.append(m13)
+    return Plan("C09", [m, mb, me, mf] + hist,
                 assumptions=["handlers/checkers are stubs with symbolic truth values and behaviours (documented contract: provide, decline with CannotProvide, terminal CannotProvide, provide_from_next)",
                              "step obligation relies on the invariant that the pending combo holds the not-yet-emitted exact-origin items with distinct origins"],
                 bounds={"router recipe length": str(n), "bus recipe length": str(nb), "e2e recipe length": "2"},
